@@ -237,3 +237,37 @@ Section Res.
     - destruct (fresh (tagf p) p); reflexivity.
   Qed.
 End Res.
+
+Lemma ancestor_rev_spec rp tag : match ancestor_rev rp tag with
+  | Some q => exists s e r, rp = s ++ e :: r /\ q = rev (e :: r) /\ fst e = tag /\ Forall (fun x => fst x <> tag) s
+  | None => Forall (fun x => fst x <> tag) rp
+  end.
+Proof.
+  induction rp as [|e r IH]; simpl; [constructor|].
+  destruct (str_eqb (fst e) tag) eqn:E.
+  - apply str_eqb_eq in E. exists [], e, r. repeat split; auto.
+  - assert (Hne : fst e <> tag) by (intros H; apply str_eqb_eq in H; congruence).
+    destruct (ancestor_rev r tag) as [q|].
+    + destruct IH as [s [e0 [r0 [H1 [H2 [H3 H4]]]]]]. exists (e :: s), e0, r0. subst. repeat split; auto.
+    + constructor; auto.
+Qed.
+
+(* the answer is a prefix of the path that ends in the tag, and nothing after it on the path has the tag *)
+Theorem ancestor_nearest p tag q : ancestor p tag = Some q ->
+  exists rest, p = q ++ rest /\ (exists e, last q e = e /\ q <> [] /\ fst (last q e) = tag) /\ Forall (fun x => fst x <> tag) rest.
+Proof.
+  unfold ancestor. intros H. pose proof (ancestor_rev_spec (rev p) tag) as S. rewrite H in S.
+  destruct S as [s [e [r [H1 [H2 [H3 H4]]]]]]. exists (rev s). split; [|split].
+  - rewrite <- (rev_involutive p), H1, rev_app_distr. subst q. reflexivity.
+  - exists e. subst q. simpl. rewrite last_last. repeat split; auto. intros Hn. apply app_eq_nil in Hn. destruct Hn; discriminate.
+  - apply Forall_rev. exact H4.
+Qed.
+Theorem ancestor_none p tag : ancestor p tag = None <-> Forall (fun x => fst x <> tag) p.
+Proof.
+  unfold ancestor. pose proof (ancestor_rev_spec (rev p) tag) as S. split.
+  - intros H. rewrite H in S. rewrite <- (rev_involutive p). apply Forall_rev. exact S.
+  - intros H. destruct (ancestor_rev (rev p) tag) as [q|]; auto.
+    destruct S as [s [e [r [H1 [_ [H3 _]]]]]]. pose proof (Forall_rev H) as H'.
+    assert (H2 : Forall (fun x : elem => fst x <> tag) (s ++ e :: r)) by (rewrite <- H1; exact H').
+    apply Forall_app in H2. destruct H2 as [_ H2]. inversion H2; subst. congruence.
+Qed.
